@@ -221,12 +221,18 @@ def gen_action_ext(r, pre, length, allow):
     base_allow = tuple(a for a in allow if a != "put_glyph")
     prog, kinds = heapgen.gen_action(r, pre, length, allow=base_allow or ("next",))
     if "put_glyph" in allow and r.random() < 0.6:
-        prog = [OP['PUT_GLYPH'], 0, r.randrange(NCLASSES)] + prog
+        if r.random() < 0.35:
+            # put_subs: the glyph at the same index of the output class as the slot's glyph has in the input class - classes of
+            # different lengths, so that the index can be the output class's length or beyond (getClassGlyph then answers glyph 0),
+            # and glyphs that are not in the input class at all (index 0xFFFF)
+            prog = [OP['PUT_SUBS'], 0, 0, r.choice([1, 2, 2, r.randrange(NCLASSES)]), 0, r.randrange(NCLASSES)] + prog
+        else:
+            prog = [OP['PUT_GLYPH'], 0, r.randrange(NCLASSES)] + prog
     return prog, kinds
 
 
 NCLASSES = 4
-CLASSES = [[2], [1], [5, 6], [9]]
+CLASSES = [[2], [1, 3], [5, 6, 7], [9]]      # linear classes of lengths 1, 2, 3, 1: put_subs from a longer into a shorter class meets the index = length boundary
 
 
 GATTR = None
